@@ -723,4 +723,123 @@ theorem sortStrs_perm (l : List Str) : (sortStrs l).Perm l := by
     simp only [List.foldr_cons]
     exact (insertSorted_perm x _).trans (ih.cons x)
 
+/-! ## keys of merged maps; the iBAQ number over several jobs -/
+
+theorem keys_extend {Q P : Type} [DecidableEq Q] (d : List (Q × List P)) (k : Q) (vs : List P) :
+    keys (extend d k vs) = if k ∈ keys d then keys d else keys d ++ [k] := by
+  induction d with
+  | nil => simp [extend, keys]
+  | cons hd r ih =>
+    obtain ⟨a, ws⟩ := hd
+    simp only [extend]
+    by_cases hak : a = k
+    · subst hak; simp [keys]
+    · have hka : ¬ k = a := fun e => hak e.symm
+      simp only [hak, if_false]
+      simp only [keys, List.map_cons, List.mem_cons, hka, false_or] at ih ⊢
+      rw [ih]
+      by_cases hm : k ∈ List.map (fun x => x.fst) r <;> simp [hm]
+
+theorem keys_foldl_extend {Q P : Type} [DecidableEq Q] (tmp : List (Q × List P)) :
+    ∀ (acc : List (Q × List P)), (keys acc).Nodup →
+      (keys (tmp.foldl (fun d kv => extend d kv.1 kv.2) acc)).Nodup ∧
+      ∀ k, k ∈ keys (tmp.foldl (fun d kv => extend d kv.1 kv.2) acc) ↔ k ∈ keys acc ∨ k ∈ keys tmp := by
+  induction tmp with
+  | nil => intro acc h; exact ⟨h, by simp [keys]⟩
+  | cons hd r ih =>
+    intro acc h
+    obtain ⟨a, ws⟩ := hd
+    simp only [List.foldl_cons]
+    have hnd : (keys (extend acc a ws)).Nodup := by
+      rw [keys_extend]
+      split
+      · exact h
+      · rename_i hk
+        rw [List.nodup_append]
+        refine ⟨h, by simp, ?_⟩
+        intro x hx y hy
+        simp at hy; subst hy
+        intro e; exact hk (e ▸ hx)
+    obtain ⟨h1, h2⟩ := ih _ hnd
+    refine ⟨h1, ?_⟩
+    intro k
+    rw [h2, keys_extend]
+    simp only [keys, List.map_cons, List.mem_cons]
+    by_cases hm : a ∈ keys acc
+    · simp only [keys] at hm
+      simp only [hm, if_true]
+      constructor
+      · rintro (h' | h')
+        · exact Or.inl h'
+        · exact Or.inr (Or.inr h')
+      · rintro (h' | h' | h')
+        · exact Or.inl h'
+        · subst h'; exact Or.inl hm
+        · exact Or.inr h'
+    · simp only [keys] at hm
+      simp only [hm, if_false, List.mem_append, List.mem_singleton]
+      constructor
+      · rintro ((h' | h') | h')
+        · exact Or.inl h'
+        · exact Or.inr (Or.inl h')
+        · exact Or.inr (Or.inr h')
+      · rintro (h' | h' | h')
+        · exact Or.inl (Or.inl h')
+        · exact Or.inl (Or.inr h')
+        · exact Or.inr h'
+
+/-- the keys one job contributes -/
+def jobKeys (parse : ParseId) (j : List Str × Params) : List Str :=
+  match pepMapSingle parse j.2 j.1 with
+  | .ok r => keys r.1
+  | .error _ => []
+
+theorem fromParamsGo_keys (parse : ParseId) : ∀ (js : List (List Str × Params)) (m : PMap) (sm : SeqMap)
+    (res : PMap × SeqMap), fromParamsGo parse js (m, sm) = .ok res → (keys m).Nodup →
+      (keys res.1).Nodup ∧ ∀ k, k ∈ keys res.1 ↔ k ∈ keys m ∨ ∃ j ∈ js, k ∈ jobKeys parse j := by
+  intro js
+  induction js with
+  | nil =>
+    intro m sm res h hnd
+    simp only [fromParamsGo, Except.ok.injEq] at h
+    subst h; exact ⟨hnd, by simp⟩
+  | cons j js ih =>
+    intro m sm res h hnd
+    obtain ⟨f, p⟩ := j
+    simp only [fromParamsGo] at h
+    split at h
+    · simp at h
+    · rename_i tm tsm hs
+      obtain ⟨h1, h2⟩ := keys_foldl_extend tm m hnd
+      obtain ⟨h3, h4⟩ := ih _ _ _ h h1
+      refine ⟨h3, ?_⟩
+      intro k
+      rw [h4]
+      unfold mergeMap
+      rw [h2]
+      have hjk : jobKeys parse (f, p) = keys tm := by simp [jobKeys, hs]
+      constructor
+      · rintro ((h' | h') | ⟨j, hj, hk⟩)
+        · exact Or.inl h'
+        · exact Or.inr ⟨(f, p), by simp, by rw [hjk]; exact h'⟩
+        · exact Or.inr ⟨j, by simp [hj], hk⟩
+      · rintro (h' | ⟨j, hj, hk⟩)
+        · exact Or.inl (Or.inl h')
+        · rcases List.mem_cons.mp hj with rfl | hj
+          · exact Or.inl (Or.inr (by rw [← hjk]; exact hk))
+          · exact Or.inr ⟨j, hj, hk⟩
+
+theorem mem_jobKeys_of_mem_jobEntry (parse : ParseId) (j : List Str × Params) (k pid : Str)
+    (h : pid ∈ jobEntry parse j k) : k ∈ jobKeys parse j := by
+  unfold jobEntry at h
+  unfold jobKeys
+  cases hr : pepMapSingle parse j.2 j.1 with
+  | error e => rw [hr] at h; simp at h
+  | ok r =>
+    rw [hr] at h
+    simp only at h ⊢
+    rcases Classical.em (k ∈ keys r.1) with hk | hk
+    · exact hk
+    · rw [get_of_not_mem_keys r.1 k hk] at h; simp at h
+
 end PgFdr.C09
